@@ -119,7 +119,7 @@ pub struct CommonFields {
     group_id: GroupID,
     #[builder(default)]
     #[serde(flatten)]
-    #[serde(skip_serializing_if = "HashMap::is_empty")]
+    #[serde(default, skip_serializing_if = "HashMap::is_empty")]
     //  * text => any
     custom_fields: HashMap<String, serde_json::Value>,
 }
@@ -207,7 +207,7 @@ pub struct Event {
     /// events can contain any amount of custom fields
     #[builder(default)]
     #[serde(flatten)]
-    #[serde(skip_serializing_if = "HashMap::is_empty")]
+    #[serde(default, skip_serializing_if = "HashMap::is_empty")]
     // * text => any
     custom_fields: HashMap<String, serde_json::Value>,
 }
